@@ -34,6 +34,67 @@ func c19(c *hx.Ctx) {
 				taken: strm.takenCount() - before, closed: strm.isClosed()})
 		}
 	}
+	// stateful sequences: a genuine message at a given stage, optionally a re-open or a
+	// reconnect, then a derived variant of that same message
+	stages := []string{"delivered", "returned", "acked"}
+	between := []string{"", "reopen", "reconnect"}
+	nTargeted := 2 * len(targeted)
+	nStateful := len(stages) * len(between) * len(derivedVariants)
+	stateless := preScript
+	preScript = func(g *genState, i int) {
+		if i < nTargeted {
+			stateless(g, i)
+			return
+		}
+		j := i - nTargeted
+		if j >= nStateful {
+			return
+		}
+		st, bt, va := stages[j%len(stages)], between[(j/len(stages))%len(between)], derivedVariants[j/(len(stages)*len(between))]
+		r := g.r
+		r.apply(&sop{kind: "conn"})
+		g.epoch++
+		r.apply(&sop{kind: "resp", resp: rOpened(g.epoch)})
+		hm := r.tab.craft("honest", g.body(), g.nextSeq, 0, encoding{})
+		g.nextSeq++
+		g.lastHonest = hm
+		if st == "acked" {
+			r.apply(&sop{kind: "recv"})
+		}
+		r.apply(&sop{kind: "resp", resp: rRecv(hm), note: "honest"})
+		if st == "returned" {
+			// Recv returns it; the ack is written in the same quiescence run
+			r.apply(&sop{kind: "recv"})
+		}
+		switch bt {
+		case "reopen":
+			g.epoch++
+			r.apply(&sop{kind: "resp", resp: rOpened(g.epoch)})
+		case "reconnect":
+			r.apply(&sop{kind: "resp", fail: true})
+			r.apply(&sop{kind: "conn"})
+			g.epoch++
+			r.apply(&sop{kind: "resp", resp: rOpened(g.epoch)})
+		}
+		r.apply(&sop{kind: "recv"})
+		m := r.tab.derive(hm, va, j)
+		cls := r.tab.lookup(m).class + "@" + st
+		if bt != "" {
+			cls += "+" + bt
+		}
+		strm := r.cur.stream
+		before := strm.takenCount()
+		r.apply(&sop{kind: "resp", resp: rRecv(m), note: cls})
+		g.class("stateful:" + r.tab.lookup(m).class)
+		if n, _ := g.runningRecvs(); n == 0 && r.cur != nil {
+			// whatever was stored is handed to the application
+			r.apply(&sop{kind: "recv"})
+		}
+		if !r.tab.lookup(m).honest {
+			g.badChecks = append(g.badChecks, badCheck{class: cls, up: r.lastUp, ends: r.lastEnds,
+				taken: strm.takenCount() - before, closed: strm.isClosed()})
+		}
+	}
 	defer func() { preScript = nil }()
 	runScripts(c, c.N, &profC19, fixedC19(), false, func(g *genState, desc map[string]any) {
 		// direct oracle 1: everything Recv returned is one of A's honest messages, unaltered
